@@ -3,8 +3,8 @@
                     dispatch_set,dispatch_emit,dispatch_hash,dispatch_finit}.c,
      mptcore/misc/hash_djb2.c, mpt++/event.cpp (set_error, set_default, wrappers).
    Executable, NO proofs.  Every function transcribes the C function named in
-   its comment, as the code is AFTER the fix: commits of the verification
-   worktree (docs/notes_C11.md).
+   its comment, as the code is in /repo AFTER the patches docs/C11_*.diff
+   (docs/notes_C11.md).
 
    The command table is the element range [0, _used/sizeof(command)) of the
    buffer behind dispatch._d: a list of slots (id, cmd, arg).  A slot whose cmd
@@ -216,9 +216,9 @@ Definition command_reserve (t : option table) (max : N) : res (option table * rr
     | FFuel => Ok (Some tb', RFuel)
     | FNone => Ok (Some tb', RNone)              (* no unique message id available *)
     | FFound id =>
-      (* mpt_array_append(arr, sizeof cmd[0], 0) needs a raw buffer *)
-      if typed tb then Ok (Some tb', RNone)
-      else Ok (Some (mktable false (sl' ++ [mkslot id (Some FLog) id 0])), RSlot used id)
+      (* mpt_array_insert(arr, msg->_used, sizeof cmd[0]): works on a raw buffer and on one with content
+         traits (docs/C11_reserve_typed.diff; before it mpt_array_append refused every typed buffer) *)
+      Ok (Some (mktable (typed tb) (sl' ++ [mkslot id (Some FLog) id 0])), RSlot used id)
     end
   end.
 
@@ -269,6 +269,106 @@ Definition dispatch_fini (d : disp) : disp * list lentry :=
   let lc := match d_ctx d with Some c => [LUnref c] | None => [] end in
   (mkdisp None 0%N None None (d_next d), lg ++ le ++ lc).
 
+(* ---------------------------------------------------------------- hash_djb2.c: mpt_hash_djb2(data, len) *)
+(* while ( *str ) hash = (hash x 33) xor *str++;  every byte is read from the storage [m] behind the pointer *)
+Fixpoint djb2_str (fuel : nat) (m : mem) (i : nat) (h : N) : res N :=
+  match fuel with
+  | 0 => Fault
+  | S f => do c <- rd m i 1;
+           let b := hd 0%N c in
+           if (b =? 0)%N then Ok h else djb2_str f m (S i) (djb2_step h b)
+  end.
+Definition hash_djb2 (data : option mem) (len : Z) : res N :=
+  match data with
+  | None => Ok 0%N                                               (* if (!(str = data)) return 0 *)
+  | Some m =>
+    if (len <? 0)%Z then djb2_str (S (length m)) m 0 5381%N       (* NUL terminated *)
+    else do d <- rd m 0 (Z.to_nat len); Ok (fold_left djb2_step d 5381%N)
+  end.
+
+(* ---------------------------------------------------------------- command_reserve.c: static log_reply(out, arg) *)
+(* the handler mpt_command_reserve leaves in a reserved slot; arg is a message (or NULL).  What it
+   writes through mpt_log is not modelled; it reads the two header bytes and returns 0 on every path. *)
+Definition log_reply (m : option msg) : res Z :=
+  match m with
+  | None => Ok 0%Z                                                (* empty reply *)
+  | Some m =>
+    do '(cnt, hd2, m1) <- m_read m 2;                             (* mpt_message_read(&msg, sizeof(mt), &mt) *)
+    if cnt =? 0 then Ok 0%Z                                       (* zero length reply *)
+    else if (nth 0 hd2 0 =? 1)%N then Ok 0%Z                      (* MessageAnswer: level from mt.arg *)
+    else if (nth 0 hd2 0 =? 0)%N then Ok 0%Z                      (* MessageOutput *)
+    else Ok (Z.of_nat (m_length m1) * 0)%Z                        (* len += mpt_message_length(&msg); return 0 *)
+  end.
+
+(* ---------------------------------------------------------------- reply_set.c, mpt++/event.cpp reply_data::set *)
+(* struct reply_data { uint16_t _max, len; uint8_t val[] }: val area of _max bytes *)
+Record rdata := mkrd { rd_max : N; rd_len : N; rd_val : mem }.
+(* mpt_reply_set(rd, len, data); BadValue = -2 *)
+Definition reply_set (r : rdata) (len : nat) (data : option mem) : res (rdata * Z) :=
+  if (rd_max r <? N.of_nat len)%N then Ok (r, (-2)%Z)
+  else
+    do src <- match data with Some d => rd d 0 len | None => Ok (repeat 0%N len) end;   (* memcpy / memset *)
+    do v <- wr (rd_val r) 0 src;
+    Ok (mkrd (rd_max r) (N.of_nat len) v, (Z.of_N (rd_max r) - Z.of_nat len)%Z).
+(* reply_data::set(len, data): if (len && active()) return false; return mpt_reply_set(..) >= 0 *)
+Definition reply_data_set (r : rdata) (len : nat) (data : option mem) : res (rdata * bool) :=
+  if negb (len =? 0) && negb (rd_len r =? 0)%N then Ok (r, false)
+  else do '(r', ret) <- reply_set r len data; Ok (r', negb (ret <? 0)%Z).
+(* the object the harness builds: _max, the first bytes of the value area in use, the rest 0xee *)
+Definition mk_rdata (max : N) (cur : list byte) : rdata :=
+  let c := firstn (N.to_nat max) cur in
+  mkrd max (N.of_nat (length c)) (c ++ repeat 238%N (N.to_nat max - length c)).
+
+(* ---------------------------------------------------------------- command_traits.c: _command_init(ptr, src) *)
+(* a command that holds a handler is not copied (BadOperation = -4, destination untouched); otherwise the
+   destination is zeroed.  src: None = NULL, Some live *)
+Definition command_init (src : option bool) : Z * bool :=
+  match src with
+  | Some true => ((-4)%Z, false)
+  | _ => (0%Z, true)
+  end.
+
+(* ---------------------------------------------------------------- calls that do not touch the dispatcher *)
+Inductive aux :=
+| ADjbLen (s : list byte)                        (* mpt_hash_djb2(s, length s) *)
+| ADjbStr (s : list byte)                        (* mpt_hash_djb2(s ++ "\0", -1) *)
+| ADjbNull (len : Z)                             (* mpt_hash_djb2(NULL, len) *)
+| ALogReply (m : option (list frag))             (* the handler of a fresh reserved slot on a message / NULL *)
+| ARSet (max : N) (cur data : list byte)         (* reply_data::set(length data, data) *)
+| ARZero (max : N) (cur : list byte) (len : nat) (* reply_data::set(len, NULL) *)
+| ADefer                                         (* reply_context::defer() of a context that does not override it *)
+| ATraits                                        (* reply_context::pointer_traits() *)
+| ACopy                                          (* copy construction of the dispatcher (refused at compile time,
+                                                    docs/C11_dispatch_copy.diff) *)
+| AUnknown (id : N) (m : option (list frag)) (rp : option N)    (* the built-in fallback called directly *)
+| ACmdInit (src : option bool).                  (* mpt_command_traits()->init(ptr, src): src NULL | unused | live *)
+
+Inductive aout :=
+| XHash (h : N)
+| XInt (z : Z)
+| XBool (b : bool)
+| XRData (ok : bool) (len : N) (val : list byte)
+| XUnk (ret : Z) (id : N)
+| XInit (ret : Z) (zeroed : bool).
+
+Definition show_rdata (x : rdata * bool) : aout := XRData (snd x) (rd_len (fst x)) (rd_val (fst x)).
+
+Definition aux_run (a : aux) : res (aout * list lentry) :=
+  match a with
+  | ADjbLen s => do h <- hash_djb2 (Some s) (Z.of_nat (length s)); Ok (XHash h, [])
+  | ADjbStr s => do h <- hash_djb2 (Some (s ++ [0%N])) (-1); Ok (XHash h, [])
+  | ADjbNull len => do h <- hash_djb2 None len; Ok (XHash h, [])
+  | ALogReply m => do z <- log_reply (option_map msg_of m); Ok (XInt z, [])
+  | ARSet max cur data => do x <- reply_data_set (mk_rdata max cur) (length data) (Some data); Ok (show_rdata x, [])
+  | ARZero max cur len => do x <- reply_data_set (mk_rdata max cur) len None; Ok (show_rdata x, [])
+  | ADefer => Ok (XBool false, [])               (* return 0 *)
+  | ATraits => Ok (XBool true, [])               (* mpt_interface_traits(TypeReplyPtr): the built-in entry *)
+  | ACopy => Ok (XBool false, [])
+  | AUnknown id m rp =>
+    do '(ret, id', rl) <- unknown_event id (option_map msg_of m) rp; Ok (XUnk ret id', rl)
+  | ACmdInit src => let '(ret, z) := command_init src in Ok (XInit ret z, [])
+  end.
+
 (* ---------------------------------------------------------------- dispatch_emit.c *)
 Inductive out :=
 | OInt (z : Z)                                   (* int result *)
@@ -277,6 +377,7 @@ Inductive out :=
 | ORes (r : option (nat * N))                    (* reserved slot: position, id *)
 | OEv (z : Z) (id : option N) (rp : option N)    (* result, ev->id and ev->reply afterwards (None: ev == NULL) *)
 | OVoid
+| OAuxR (x : aout)
 | OFault
 | OFuel.
 
@@ -415,7 +516,10 @@ Inductive op :=
 | OSetErr (h : bool)                 (* dispatch::set_error *)
 | OSetDef (id : N)                   (* dispatch::set_default *)
 | OSetCtx                            (* harness: _ctx = new context if none is set *)
-| OFini.                             (* mpt_dispatch_fini / dispatch::~dispatch *)
+| OFini                              (* mpt_dispatch_fini / dispatch::~dispatch *)
+| OArr                               (* C++: a default constructed command::array (as io::stream::_wait) is assigned to the
+                                        table: the shared empty content with command traits; the old buffer is released *)
+| OAux (a : aux).                    (* calls beside the dispatcher *)
 
 Definition with_tbl (d : disp) (t : option table) : disp :=
   mkdisp t (d_def d) (d_err d) (d_ctx d) (d_next d).
@@ -466,6 +570,17 @@ Definition dstep0 (d : disp) (o : op) : res (disp * out * list lentry) :=
     | None => Ok (mkdisp (d_tbl d) (d_def d) (d_err d) (Some r) (d_next d), OVoid, [])
     end
   | OFini => let '(d', lg) := dispatch_fini d in Ok (d', OVoid, lg)
+  | OArr =>
+    (* *this = command::array(): the reference to the old buffer is released (its content traits run
+       cmd(arg, NULL) for every used element, command_traits.c) and replaced by the shared empty content;
+       the harness does not do it on a raw (reserve-made) buffer, which has no traits to finalise with *)
+    match d_tbl d with
+    | None => Ok (with_tbl d (Some (mktable true [])), OVoid, [])
+    | Some tb =>
+      if typed tb then Ok (with_tbl d (Some (mktable true [])), OVoid, flat_map fin_slot (slots tb))
+      else Ok (d, OVoid, [])
+    end
+  | OAux a => do '(x, lg) <- aux_run a; Ok (d, OAuxR x, lg)
   end.
 
 Definition tick (d : disp) : disp :=
